@@ -283,6 +283,14 @@ fn hook(point: &'static str, args: &[(&'static str, i64)], bytes: Option<&[u8]>)
         if plan.flush_images {
             plan.last_flush = bytes.map(|b| b.to_vec());
         }
+        // C09 at every flush of a real dump: compare the destination with the image right now
+        DEST.with(|d| {
+            if let (Some((dest, from)), Some(img)) = (d.borrow_mut().as_mut(), bytes) {
+                let dd = dest.borrow();
+                ev["obs"] = crate::dirops::observe(&dd, img, *from);
+                *from = dd.calls.len();
+            }
+        });
     }
     plan.steps.push(ev);
     if point == "enumerate:entry" {
@@ -304,12 +312,15 @@ fn hook(point: &'static str, args: &[(&'static str, i64)], bytes: Option<&[u8]>)
 
 /// destination wrapper: numbers every call in the global sequence and runs planned actions at call indices
 pub struct PlanDest {
-    pub inner: RecDest,
-    pub seqs: Vec<u64>,
+    pub inner: std::rc::Rc<std::cell::RefCell<RecDest>>,
+    pub seqs: std::rc::Rc<std::cell::RefCell<Vec<u64>>>,
+}
+thread_local! {
+    static DEST: std::cell::RefCell<Option<(std::rc::Rc<std::cell::RefCell<RecDest>>, usize)>> = const { std::cell::RefCell::new(None) };
 }
 impl PlanDest {
     fn before(&mut self) {
-        let k = self.inner.ncalls;
+        let k = self.inner.borrow().ncalls;
         let mut g = PLAN.lock().unwrap_or_else(|e| e.into_inner());
         if let Some(plan) = g.as_mut() {
             let todo: Vec<Value> = plan.dest_actions.iter().filter(|(i, _)| *i == k).map(|(_, a)| a.clone()).collect();
@@ -318,23 +329,23 @@ impl PlanDest {
                 do_action(plan, &a);
             }
         }
-        self.seqs.push(crate::next_seq());
+        self.seqs.borrow_mut().push(crate::next_seq());
     }
 }
 impl std::io::Write for PlanDest {
     fn write(&mut self, buf: &[u8]) -> std::io::Result<usize> {
         self.before();
-        self.inner.write(buf)
+        self.inner.borrow_mut().write(buf)
     }
     fn flush(&mut self) -> std::io::Result<()> {
         self.before();
-        self.inner.flush()
+        self.inner.borrow_mut().flush()
     }
 }
 impl std::io::Seek for PlanDest {
     fn seek(&mut self, to: std::io::SeekFrom) -> std::io::Result<u64> {
         self.before();
-        self.inner.seek(to)
+        self.inner.borrow_mut().seek(to)
     }
 }
 
@@ -350,7 +361,7 @@ fn failspot_by_name(n: &str) -> Option<FailSpotName> {
     })
 }
 
-fn prefix_facts(dest: &RecDest) -> Vec<Value> {
+fn prefix_facts(dest: &RecDest, last_only: bool) -> Vec<Value> {
     let start = dest.start as usize;
     let mut out = Vec::new();
     let mut hi = start;
@@ -358,8 +369,8 @@ fn prefix_facts(dest: &RecDest) -> Vec<Value> {
         if let Call::Write { pos, data } = &dest.calls[k] {
             hi = hi.max(*pos as usize + data.len());
         }
-        if !matches!(dest.calls[k], Call::Write { .. }) {
-            // only writes change what has reached the destination, but every boundary is a crash point
+        if last_only && k + 1 < dest.calls.len() {
+            continue;
         }
         let content = dest.content_after(k + 1);
         let img = &content[start..hi.min(content.len())];
@@ -538,11 +549,18 @@ pub fn worker_main(scn: &Value, report: &Value, shared_path: Option<String>, out
                 }
                 let start = step.get("start").or_else(|| faults.get("start")).and_then(|v| v.as_u64()).unwrap_or(0);
                 let pre_len = step.get("pre_len").or_else(|| faults.get("pre_len")).and_then(|v| v.as_u64()).unwrap_or(0) as usize;
-                let mut dest = PlanDest { inner: RecDest::new(start, pre_len), seqs: vec![] };
-                dest.inner.fail_at = step.get("dest_fail_at").or_else(|| faults.get("dest_fail_at")).and_then(|v| v.as_u64()).map(|k| k as usize);
+                let shared = std::rc::Rc::new(std::cell::RefCell::new(RecDest::new(start, pre_len)));
+                shared.borrow_mut().fail_at = step.get("dest_fail_at").or_else(|| faults.get("dest_fail_at")).and_then(|v| v.as_u64()).map(|k| k as usize);
+                let seqs = std::rc::Rc::new(std::cell::RefCell::new(Vec::new()));
+                let mut dest = PlanDest { inner: shared.clone(), seqs: seqs.clone() };
+                DEST.with(|d| *d.borrow_mut() = Some((shared.clone(), 0)));
                 let t0 = Instant::now();
                 let res = std::panic::catch_unwind(std::panic::AssertUnwindSafe(|| writer.dump(&mut dest)));
                 let wall = t0.elapsed().as_secs_f64();
+                DEST.with(|d| d.borrow_mut().take());
+                drop(dest);
+                let dest_inner = shared.borrow();
+                let seqs = seqs.borrow();
                 let (steps, last_flush) = {
                     let mut g = PLAN.lock().unwrap();
                     let plan = g.as_mut().unwrap();
@@ -551,14 +569,15 @@ pub fn worker_main(scn: &Value, report: &Value, shared_path: Option<String>, out
                 let mut rec = json!({"ev":"dump","dump_no":dump_no,"wall_s":wall,"writer":winfo.clone(),"supplied":supplied.clone(),
                                      "opts": {"size_limit": wopts.get("size_limit"), "sanitize": writer.sanitize_stack, "skip": writer.skip_stacks_if_mapping_unreferenced,
                                               "crash_context": writer.crash_context.is_some()}});
-                let dcalls = crate::dirops::calls_json(&dest.inner.calls);
+                let dcalls = crate::dirops::calls_json(&dest_inner.calls);
                 let mut allsteps = steps;
-                for (c, s) in dcalls.iter().zip(dest.seqs.iter()) {
+                for (c, s) in dcalls.iter().zip(seqs.iter()) {
                     allsteps.push(json!({"k":"dest","c":c,"seq":s}));
                 }
                 allsteps.sort_by_key(|s| s["seq"].as_u64().unwrap_or(0));
                 rec["steps"] = json!(allsteps);
-                rec["ncalls"] = json!(dest.inner.calls.len());
+                rec["ncalls"] = json!(dest_inner.calls.len());
+                rec["pre_len"] = json!(pre_len);
                 rec["start"] = json!(start);
                 let image: Option<Vec<u8>> = match &res {
                     Ok(Ok(img)) => {
@@ -577,7 +596,7 @@ pub fn worker_main(scn: &Value, report: &Value, shared_path: Option<String>, out
                 };
                 // C09 on the real dump: destination vs image
                 if let Some(img) = &image {
-                    let d = &dest.inner;
+                    let d = &*dest_inner;
                     rec["dest"] = crate::dirops::observe(d, img, d.calls.len());
                     let p = mdparse::parse(img);
                     rec["imgLen"] = json!(img.len());
@@ -607,8 +626,10 @@ pub fn worker_main(scn: &Value, report: &Value, shared_path: Option<String>, out
                         rec["stack_bytes"] = json!(stacks);
                     }
                 }
-                if scn.get("prefixes").and_then(|v| v.as_bool()).unwrap_or(false) {
-                    rec["prefixes"] = json!(prefix_facts(&dest.inner));
+                match scn.get("prefixes").and_then(|v| v.as_str()) {
+                    Some("all") => rec["prefixes"] = json!(prefix_facts(&dest_inner, false)),
+                    Some("last") => rec["prefixes"] = json!(prefix_facts(&dest_inner, true)),
+                    _ => {}
                 }
                 tr.emit(rec);
                 tr.flush();
